@@ -227,15 +227,21 @@ def cacheCleanupW (pid : Nat) : WStep := fun w =>
 
 def cacheCleanup (pid : Nat) : M Unit := liftW (cacheCleanupW pid)
 
-def unregisterAll : List Nat → M Unit
-  | [] => pure ()
-  | r :: rs => do unregisterRef r; unregisterAll rs
+def unregisterAllW : List Nat → WStep
+  | [], w => (none, w)
+  | r :: rs, w =>
+    match unregisterRefW r w with
+    | (some e, w') => (some e, w')
+    | (none, w') => unregisterAllW rs w'
 
-/-- the `except` branch of `managed_provide_cache` (before re-raising) -/
-def provideFail (pid : Nat) (before : List Nat) : M Unit := do
-  let w ← get
-  unregisterAll (w.allRefIds.filter (fun r => !before.contains r))
-  cacheCleanup pid
+/-- the `except` branch of `managed_provide_cache` (before re-raising): every reference id that
+appeared in the process-global set since the provider was entered is unregistered -/
+def provideFailW (pid : Nat) (before : List Nat) : WStep := fun w =>
+  match unregisterAllW (w.allRefIds.filter (fun r => !before.contains r)) w with
+  | (some e, w') => (some e, w')
+  | (none, w') => cacheCleanupW pid w'
+
+def provideFail (pid : Nat) (before : List Nat) : M Unit := liftW (provideFailW pid before)
 
 /-! ### contexts -/
 
@@ -417,6 +423,7 @@ mutual
         | _ => throw (.tse "fill name not a string")
       | .slot nameE isDefault isRequired data body => renderSlot env n nameE isDefault isRequired data body ctx
       | .comp name kwargs only dyn body => renderCompTag env n name kwargs only dyn body ctx
+      | _ => throw (.runtime "composition tag: flatten the family first")
 
   /-- `resolve_fills` -/
   def resolveFills (env : Env) : Nat → List Node → Ctx → M (List (Str × FillFn))
